@@ -7,6 +7,7 @@ then runs the property check(s) against the patched copy and records everything 
 import sys, os, subprocess, shutil, tempfile, json, glob, time
 src, name, prop, pkg, rx = sys.argv[1:6]
 props = [prop] + sys.argv[6:]
+race = "-race " if os.environ.get("SEED_RACE") else ""
 env = dict(os.environ, GOFLAGS="-mod=mod", GOPROXY="off", GOSUMDB="off", GOTOOLCHAIN="local")
 dst = f"/verif/seeded/{name}"
 os.makedirs(dst, exist_ok=True)
@@ -23,7 +24,7 @@ try:
     demos = [f for f in glob.glob(os.path.join(dst, "*_test.go"))]
     for d in demos:
         shutil.copy(d, os.path.join(scratch, pkg))
-    rc0, out0 = run(f"go test -vet=off -count=1 -timeout 120s -run '{rx}' ./{pkg}/")
+    rc0, out0 = run(f"go test {race}-vet=off -count=1 -timeout 180s -run '{rx}' ./{pkg}/")
     meta["demo_without_change"] = "PASS" if rc0 == 0 else "FAIL"
     meta["ran"].append(f"go test -run '{rx}' ./{pkg}/ (clean): rc={rc0}")
     rc, out = run(f"patch -p1 -s < {dst}/patch.diff")
@@ -32,7 +33,7 @@ try:
         raise SystemExit
     rcb, outb = run("go build ./...")
     meta["compiles"] = rcb == 0
-    rc1, out1 = run(f"go test -vet=off -count=1 -timeout 120s -run '{rx}' ./{pkg}/")
+    rc1, out1 = run(f"go test {race}-vet=off -count=1 -timeout 180s -run '{rx}' ./{pkg}/")
     meta["demo_with_change"] = "PASS" if rc1 == 0 else "FAIL"
     meta["demo_output_with_change"] = out1[-1200:]
     meta["ran"].append(f"go test -run '{rx}' ./{pkg}/ (patched): rc={rc1}")
